@@ -194,11 +194,36 @@ def r20_2_add_methods(chk):
 def r20_3_write(chk):
     from . import c14
     tmp = Check("C14", "quick", 0, chk.ix, chk.cg, quiet=True)
+    tmp._terms = chk.terms
     c14.r14_5_write_path_stores(tmp)
     for o in tmp.obs:
         o.rule = "R20.3"
         chk.obs.append(o)
     chk.consulted_functions |= tmp.consulted_functions
+    # checks that can refuse the write run before the write starts changing the specification: in the per-frame
+    # preparation every raise that is not part of the set-up from data itself precedes the first store into a
+    # specification object (otherwise a refused write leaves half of its derived state behind even where the refusal
+    # could have come first)
+    from ..terms import attr_stores
+    ix = chk.ix
+    mk = ix.get_method("LogicalFile", "_make_multi_frame_data")
+    setup = ix.get_method("FrameItem", "setup_from_data")
+    chk.consult(mk, setup)
+    part_of_setup = set(chk.cg.reachable([setup]))
+    # (the record generator object is constructed last; its own argument checks restate what the wrapper construction
+    #  established - same mapping, same frame - and are not refusals of the user's input)
+    mfd_init = ix.get_class("MultiFrameData").lookup("__init__")
+    part_of_setup |= set(chk.cg.reachable([mfd_init])) if mfd_init is not None else set()
+    su = chk.terms.inline(mk, 4)
+    store_idx = [i for i, e in enumerate(su.effects) if (e.kind == "store_attr" and e.base[0] != "call") or
+                 (e.kind == "call" and e.value[1] == ("global", "setattr"))]
+    first_store = min(store_idx, default=None)
+    late = [e for i, e in enumerate(su.effects) if e.kind == "raise" and first_store is not None and i > first_store
+            and e.func not in part_of_setup]
+    chk.require(first_store is not None and not late, "R20.3", "refusals-before-write-time-stores",
+                f"{[e.func.short for e in late][:3]} can refuse the write after the frame / channels were already "
+                f"modified from the data: the failed write leaves derived values on the specification although the check "
+                f"could have run first", mk.where)
 
 
 def r20_4_atomic_setters(chk):
